@@ -206,7 +206,21 @@ func ruleCountOnce() check.Rule {
 						if !ok {
 							return true
 						}
-						if name, ok := isPromMetricCall(info, call); ok {
+						name, ok := isPromMetricCall(info, call)
+						if !ok {
+							// a helper of the plugin that updates a metric (observeElapsed(observer, start, end)) is the update
+							for _, b := range calleeBodies(m, sc.Pkg, call) {
+								ast.Inspect(b.Body, func(z ast.Node) bool {
+									if ic, isCall := z.(*ast.CallExpr); isCall && !ok {
+										if nm, isMetric := isPromMetricCall(b.Pkg.TypesInfo, ic); isMetric && topLevelStmtOf(m, b.Pkg, b.Body, ic) {
+											name, ok = nm, true
+										}
+									}
+									return !ok
+								})
+							}
+						}
+						if ok {
 							inLoop := false
 							for cn := ast.Node(call); cn != nil && cn != ast.Node(body); cn = m.Parent(sc.Pkg, cn) {
 								switch cn.(type) {
